@@ -460,6 +460,40 @@ Definition v1_set (st : state) (p : perms) (l : list v1_update) : state * reply 
     (st', RErrors (map (fun '(i, c) => (- (i + 1), c)) nf ++ map (fun '(id, e) => (id, v1_update_code e)) errs))
   end.
 
+(* StreamedUpdate: one message of the stream.  Unlike Set nothing fails the message as a whole: an update
+   without `entry`, an unknown path (404) and a target for a non-actuator (400) are per-element errors and
+   the remaining elements go to one update_entries.  reply: (-(index+1), code) for an element whose path names
+   no signal (or that has no entry), (id, 400) for a target on a non-actuator, then (id, code) for every
+   element the core rejected *)
+Fixpoint v1_stream_resolve (db : database) (l : list v1_update) (ups : list (Z * upd)) (pre : list (Z * Z))
+         (idx : Z) : list (Z * upd) * list (Z * Z) :=
+  match l with
+  | [] => (rev ups, rev pre)
+  | u :: r =>
+    match v1_path u with
+    | None => v1_stream_resolve db r ups ((- (idx + 1), 400) :: pre) (idx + 1)
+    | Some path =>
+      match lookup_path (path_to_id db) path with
+      | None => v1_stream_resolve db r ups ((- (idx + 1), 404) :: pre) (idx + 1)
+      | Some id =>
+        let non_actuator := match lookup_id (entries db) id with
+                            | Some e => negb (entry_type_eqb (m_etype (e_meta e)) Actuator)
+                            | None => false
+                            end in
+        match v1_target u with
+        | Some _ => if non_actuator then v1_stream_resolve db r ups ((id, 400) :: pre) (idx + 1)
+                    else v1_stream_resolve db r ((id, v1_to_upd u) :: ups) pre (idx + 1)
+        | None => v1_stream_resolve db r ((id, v1_to_upd u) :: ups) pre (idx + 1)
+        end
+      end
+    end
+  end.
+
+Definition v1_stream_msg (st : state) (p : perms) (l : list v1_update) : state * reply :=
+  let '(ups, pre) := v1_stream_resolve (st_db st) l [] [] 0 in
+  let '(st', errs) := update_entries st p ups in
+  (st', RErrors (pre ++ map (fun '(id, e) => (id, v1_update_code e)) errs)).
+
 (* ---------- sdv.databroker.v1 ---------- *)
 (* Failure: UNKNOWN_DATAPOINT 2, ACCESS_DENIED 3 *)
 Definition sdv_get (st : state) (p : perms) (names : list (list Z)) : reply :=
@@ -506,6 +540,11 @@ Definition sdv_set (st : state) (p : perms) (l : list (list Z * option value)) :
 Definition sdv_update (st : state) (p : perms) (l : list (Z * option value)) : state * reply :=
   let '(st', errs) := update_entries st p (map (fun '(id, w) => (id, dp_upd (from_wire w))) l) in
   (st', RErrors (map (fun '(id, e) => (id, sdv_update_code e)) errs)).
+
+(* Collector::StreamDatapoints: every message of the stream is one UpdateDatapoints (a reply is sent only
+   when something was rejected; the harness reads "no reply" as the empty error list) *)
+Definition sdv_stream_msg (st : state) (p : perms) (l : list (Z * option value)) : state * reply :=
+  sdv_update st p l.
 
 (* Collector::RegisterDatapoints: sensors; the first failure aborts the request (earlier
    registrations stay) *)
